@@ -48,6 +48,21 @@ class histosys_builder:
             else [0.0] * self.config.channel_nbins[channel]
         )
         moddata = self.collect(thismod, nom)
+        # check the shapes channel by channel: after the concatenation over
+        # channels in finalize() a surplus in one channel can be compensated
+        # by a deficit in another one
+        if (
+            not len(moddata['nom_data'])
+            == len(moddata['lo_data'])
+            == len(moddata['hi_data'])
+        ):
+            _modifier_type, _modifier_name = key.split("/")
+            raise InvalidModifier(
+                f"The '{sample}' sample {_modifier_type} modifier"
+                + f" '{_modifier_name}' has data shape inconsistent with the sample in channel '{channel}'.\n"
+                + f"{sample} has 'data' of length {len(moddata['nom_data'])} but {_modifier_name}"
+                + f" has 'lo_data' of length {len(moddata['lo_data'])} and 'hi_data' of length {len(moddata['hi_data'])}."
+            )
         self.builder_data[key][sample]['data']['lo_data'].append(moddata['lo_data'])
         self.builder_data[key][sample]['data']['hi_data'].append(moddata['hi_data'])
         self.builder_data[key][sample]['data']['nom_data'].append(moddata['nom_data'])
